@@ -11,7 +11,7 @@
      plain                the texts of the references contain no '$' (flat theorem only)
      anchored             the token list cannot shrink to one bare reference
      inert                a value without '$' and without expandedValue nodes *)
-From Verif Require Import Common.Base C12.Model C12.Proofs1 C12.Proofs2 C12.Proofs3 C12.Proofs4 C12.Proofs5 C12.Proofs6 C12.Proofs7 C12.Proofs8 C12.Proofs9 C12.Tie Generated.C12Tables.
+From Verif Require Import Common.Base C12.Model C12.Proofs1 C12.Proofs2 C12.Proofs3 C12.Proofs4 C12.Proofs5 C12.Proofs6 C12.Proofs7 C12.Proofs8 C12.Proofs9 C12.Proofs10 C12.Tie Generated.C12Tables.
 From Coq Require Import Ascii.
 
 (* ================= clause 1: recursive right-biased merge ================= *)
@@ -309,6 +309,33 @@ Theorem self_cycle_rejected : forall def retrieve n ret,
   resolve_string def retrieve (ref_text n) = Err [ETooMany].
 Proof. exact Proofs2.self_cycle_rejected. Qed.
 Print Assumptions self_cycle_rejected.
+
+(* a reference answered with the text of that very reference (the string reproduces itself every round) is
+   refused as a cycle, wherever it stands in a token string *)
+Theorem identity_cycle_rejected : forall def retrieve txt d ts n,
+  wf def retrieve (nval txt) ts -> nanchored txt d ts -> first_ref ts = Some n -> txt n = [TRef n] ->
+  resolve_string def retrieve (flatten ts) = Err [ETooMany].
+Proof. exact identity_cycle_refused. Qed.
+Print Assumptions identity_cycle_rejected.
+
+(* EVERY reference cycle among well-formed provider texts is refused: [core] is any set of names each of whose
+   texts mentions a member of the set again (a cycle of any length, with anything around the references); a
+   token string that mentions a member of the core never becomes reference-free, so it is refused *)
+Theorem cyclic_core_rejected : forall def retrieve txt,
+  (forall n, wf_from def retrieve (nval txt) false (txt n) /\ flag_after false (txt n) = false) ->
+  forall core : str -> Prop,
+  (forall n, core n -> exists m, core m /\ In (TRef m) (txt n)) ->
+  forall ts,
+  wf def retrieve (nval txt) ts -> has_text ts = true -> (exists k, core k /\ In (TRef k) ts) ->
+  resolve_string def retrieve (flatten ts) = Err [ETooMany].
+Proof. exact cyclic_core_refused. Qed.
+Print Assumptions cyclic_core_rejected.
+
+(* without a default scheme, "${NAME}" is not a reference: a string without ':' is only un-escaped *)
+Theorem no_default_scheme_name_is_text : forall retrieve s,
+  has_char cColon s = false -> resolve_string [] retrieve s = Ok (CStr (unescape s)).
+Proof. exact no_default_colon_free. Qed.
+Print Assumptions no_default_scheme_name_is_text.
 
 Theorem resolve_terminates : forall def retrieve srcs,
   (exists v, resolve def retrieve srcs = Ok v) \/ (exists e, resolve def retrieve srcs = Err e).
